@@ -21,17 +21,17 @@ CHECKS = {
     "C02": dict(
         technique="Coq theorems: accept iff acceptable (RFC-level predicate over the strict grammar), reject names a present fault, no panic; differential correspondence + extracted oracle",
         text="c02_accept_iff: decode+validate accepts a body iff it is the canonical encoding of a representable OPEN that satisfies the independent acceptability predicate (version 4, AS via 2-octet field/AS_TRANS + 4-octet-AS capability, hold 0 or >=3, non-multicast id not colliding inside the AS), returning exactly the sender's id, hold time and capabilities in order; c02_reject_sound: every refusal carries a notification whose fault is present; c02_no_panic. Function-level half; the FSM half (KEEPALIVE reply, OnOpenMessage once, NOTIFICATION then close) is checked at connection level.",
-        note="Trusted: Coq kernel; model-code tie is differential (generator-bounded). The structural-fault oracle (subcode 0 vs 4) is an extracted specification function not yet covered by a theorem beyond 'not the encoding of any representable OPEN'.",
+        note="Trusted: Coq kernel; model-code tie is differential (generator-bounded). c02_structural_fault covers the structural refusals (subcode 4 only with an unknown parameter type present, subcode 0 only for an empty/overrunning field or capabilities parameter); c02_fsm_open covers the FSM half.",
         design="8/C02"),
     "C16": dict(
         technique="Coq theorem: callback trace of Decode = RFC split relation (induction over the attribute loop) + differential correspondence + extracted oracle",
-        text="c16_calls: for every byte string and nil-returning callbacks the sequence of callback invocations of the modelled UpdateDecoder.Decode equals spec_calls, an independent walk of the sections and attribute TLVs (first occurrences in wire order with exact type/flags/value, Extended Length honoured, later duplicates skipped, repeated MP attribute aborts, overrun ends the walk but NLRI still delivered); c16_overrun_first: inconsistent section lengths abort before any callback for every callback behaviour. Model tied to the Go code by recording callbacks on exhaustive short strings over a protocol alphabet, grammar/mutation bodies, and bodies above 65535 bytes.",
+        text="c16_calls: for every byte string and nil-returning callbacks the sequence of callback invocations of the modelled UpdateDecoder.Decode equals spec_calls, an independent walk of the sections and attribute TLVs (first occurrences in wire order with exact type/flags/value, Extended Length honoured, later duplicates skipped, repeated MP attribute aborts, overrun ends the walk but NLRI still delivered); c16_overrun_first: inconsistent section lengths abort before any callback for every callback behaviour; c16_calls_any_callbacks: for every callback behaviour the calls are the specification's, cut at the first callback error that contains a Notification. Model tied to the Go code by recording callbacks on exhaustive short strings over a protocol alphabet, grammar/mutation bodies, and bodies above 65535 bytes.",
         note="Trusted: Coq kernel; model-code tie differential; callbacks modelled as a script indexed by call number (covers stateful callbacks).",
         design="8/C16"),
     "C17": dict(
         technique="Coq theorems: nil iff clean (nil callbacks), totality and 'callback error never lost' for all callbacks, UpdateNotificationFromErr = first-leaf-by-severity spec (nested induction on error trees) + correspondence + extracted oracle",
-        text="c17_nil_iff_clean characterises the returned error for nil callbacks (nil iff consistent, clean attribute walk and mandatory attributes present when routes are announced; bare Notification for inconsistent lengths); c17_total and c17_callback_error_reported hold for every callback behaviour; c17_from_err proves UpdateNotificationFromErr equal to the specification on every finite error tree built from Join/wrap. The remaining clauses (contains every callback error in order, strongest class, Missing Well-known Attribute fallback) are decided by the extracted oracle on scripted callbacks of every class at every position.",
-        note="Trusted: Coq kernel; model-code tie differential. Foreign UpdateErrors are assumed to return a non-nil Notification; typed-nil errors inside trees are outside the model. The 'contains all / strongest class' clauses are oracle-checked, not yet theorems.",
+        text="c17_nil_iff_clean characterises the returned error for nil callbacks (nil iff consistent, clean attribute walk and mandatory attributes present when routes are announced; bare Notification for inconsistent lengths); c17_total and c17_callback_error_reported hold for every callback behaviour; c17_from_err proves UpdateNotificationFromErr equal to the specification on every finite error tree built from Join/wrap. c17_errors_exact: for every callback behaviour (any error class at any position, stateful) the calls are the specification's calls cut at the first callback error containing a Notification and the returned tree has exactly the specification's leaves (every callback error in order, interleaved with the structural findings incl. the Missing Well-known Attribute fallback); c17_contains_callback_errors, c17_notification_of_result (UpdateNotificationFromErr of the result = first-by-severity over that list), c17_structural_classes. The same specification is applied as an extracted oracle to the Go decoder's output on scripted callbacks of every class at every position.",
+        note="Trusted: Coq kernel; model-code tie differential. Foreign UpdateErrors are assumed to return a non-nil Notification; typed-nil errors inside trees are outside the model.",
         design="8/C17"),
     "C18": dict(
         technique="Coq theorems per attribute: accept iff RFC flags and value rule, value exact, failure approach/subcode; finite sweep for flag accessors; _partial/_refuted pairs for the two known findings; correspondence + extracted oracle",
@@ -82,13 +82,13 @@ CHECKS.update({
         design="8/C03"),
     "C04": dict(
         technique="Coq theorems: every write of the connection machine is one whole well-formed message; whole messages are self-delimiting under any serialisation; concurrent-writer stress on live sessions parsed by a strict framing monitor",
-        text="c04_every_write_wellformed: each write performed in any state on any input is a single frame with marker, length = 19+body <= 4096 and a valid type; c04_update_frame; c04_frames_self_delimiting: any concatenation of atomic well-formed writes parses back to exactly those frames, so interleaving whole writes from any number of goroutines cannot corrupt the stream. Live part: N plugin goroutines call WriteUpdate with distinct bodies concurrently with keep-alives, handler replies and teardown; the remote side strict-parses the stream and matches every UPDATE body to a WriteUpdate call that returned nil.",
+        text="c04_every_write_wellformed: each write performed in any state on any input is a single frame with marker, length = 19+body <= 4096 and a valid type; c04_update_frame; c04_frames_self_delimiting: any concatenation of atomic well-formed writes parses back to exactly those frames. Writers model (every interleaving of WriteUpdate calls, FSM writes and session ends): c04_exactly_once_in_order (each nil-returning WriteUpdate(b) appears exactly once as an UPDATE with body b, per-writer call order, on its own connection), c04_stream_is_whole_messages (the remote's strict parser recovers exactly the appended frames), c04_after_end_fails and c04_nothing_after_end (a writer of an ended session fails and never adds a frame to any connection). Live part: N plugin goroutines call WriteUpdate with distinct bodies concurrently with keep-alives, handler replies and teardown; the remote side strict-parses the stream and matches every UPDATE body to a WriteUpdate call that returned nil.",
         note="Partial for atomicity: that one conn.Write call is not interleaved with another is a property of net.Conn (Go runtime), exercised by the stress run but not modelled. Trusted: Coq kernel; differential tie.",
         design="8/C04"),
     "C06": dict(
         technique="Coq theorems on the timer logic (negotiated value, arming on OPEN acceptance, expiry actions, keep-alive re-arm, zero disables) + real-time scenarios judged with tolerances",
-        text="c06_negotiated: hold = min(local, received) for every pair; c06_open_accept_timers: on acceptance hold timer armed with the negotiated value and keep-alive timer with a third (none when zero); c06_hold_expiry: NOTIFICATION (4,0), close, Idle in OpenConfirm and Established; c06_keepalive_timer; c06_zero_hold: with hold 0 no timer is ever armed and timer events are no-ops. Live part: sessions with hold times 3..9 s and 0 on both directions: silent remote (expiry time within tolerance), late keep-alives just inside/outside the window, keep-alive cadence measured at the remote.",
-        note="Partial: wall-clock clauses are measured on a sample of hold values with scheduling tolerance; Go timers are trusted. The timed model has event granularity (timer fired / not), not a clock.",
+        text="c06_negotiated: hold = min(local, received) for every pair; c06_open_accept_timers: on acceptance hold timer armed with the negotiated value and keep-alive timer with a third (none when zero); c06_hold_expiry: NOTIFICATION (4,0), close, Idle in OpenConfirm and Established; c06_keepalive_timer; c06_zero_hold: with hold 0 no timer is ever armed and timer events are no-ops. Timed model (deadlines, timers never fire early), every timed run of any length: c06_no_early_expiry (hold expiry never earlier than the hold time after the last accepted OPEN/KEEPALIVE/UPDATE), c06_expiry_action, c06_keepalive_cadence (keep-alive timer always armed at most H/3 after the last KEEPALIVE; served within L, never more than H/3+L without one), c06_zero_never_fires. Tie: the timer operations themselves (hook events t.hold/t.ka with durations) of 88+ short sessions over hold pairs incl. 0 and 65535 are compared with the model's arm actions. Live part: sessions with hold times 3..9 s and 0 on both directions: silent remote (expiry time within tolerance), late keep-alives just inside/outside the window, keep-alive cadence measured at the remote.",
+        note="Partial: wall-clock clauses are measured on a sample of hold values with scheduling tolerance; Go timers are trusted. The clocked model assumes Go timers never fire early and bounds lateness by an explicit L.",
         design="8/C06"),
     "C07": dict(
         technique="Coq closure proof over every interleaving incl. both collision branches + decision-rule theorems; forced schedules at hook points and all arrival orders on live sessions",
@@ -112,7 +112,7 @@ CHECKS.update({
         design="8/C10"),
     "C11": dict(
         technique="Coq theorems on the retry logic (passive never dials — closure proof; inbound end resumes outbound; non-damping errors never hold down) + real-time retry scenarios",
-        text="c11_passive_never_dials in every reachable state; c11_resume: when the inbound FSM goes down the outbound FSM is enabled at once; c11_enable_outbound: a fresh outbound FSM starts with an expired idle-hold; c11_no_damping: transport faults and Cease never start a hold-down. Live: refused / stalled / reset / FIN / Cease endings at each state, then the time and count of following dials against ConnectRetry / IdleHold settings; passive peers observed not to dial.",
+        text="c11_passive_never_dials in every reachable state; c11_resume: when the inbound FSM goes down the outbound FSM is enabled at once; c11_enable_outbound: a fresh outbound FSM starts with an expired idle-hold; c11_no_damping: transport faults and Cease never start a hold-down. Timed model of Idle/Connect/Active with the idle-hold and connect-retry timers, every timed run: c11_dial_pacing (an attempt from Idle is at least idle-hold after the previous one from Idle; an attempt on connect-retry expiry at least connect-retry after the previous attempt), c11_refused_attempts_spaced (while every attempt is refused, never closer than idle-hold). Live: refused / stalled / reset / FIN / Cease endings at each state, then the time and count of following dials against ConnectRetry / IdleHold settings; passive peers observed not to dial.",
         note="Partial: pacing clauses are wall-clock measurements with tolerance on a sample of timer settings.",
         design="8/C11"),
 })
